@@ -34,6 +34,8 @@ class C10(Check):
         case = {"hashvars": [[rng.choice(FMTS + ["x"]), None] for _ in range(rng.randint(0, 4))],
                 "percpu": [rng.choice(FMTS + ["x"]) for _ in range(rng.randint(0, 3))],
                 "online": rng.choice([1, 2, 4, 16, 16]),
+                # the kernel's mask of possible CPUs as /sys/devices/system/cpu/possible shows it (None: this machine's)
+                "mask": rng.choice([None, None, "0", "0-7", "0-3,8-11", "0,2-3", "0,2,4,6", "0-1,4-5,8", "0-2,4"]),
                 "key": members(1, 3), "value": members(1, 4), "ops": []}
         for hv in case["hashvars"]:
             hv[1] = rng.choice([0.29, 2.5, 0]) if hv[0] == "x" else rand_val(rng, hv[0])
@@ -48,7 +50,7 @@ class C10(Check):
         return [self.make_case(self.rng) for _ in range(150 if self.tier == "quick" else 2000)]
 
     def corpus(self):
-        return [{"hashvars": [["I", 7], ["B", 3]], "percpu": ["I", "Q"], "online": 4, "key": ["I"], "value": ["q", "B"],
+        return [{"hashvars": [["I", 7], ["B", 3]], "percpu": ["I", "Q"], "online": 4, "mask": "0-3,8-11", "key": ["I"], "value": ["q", "B"],
                  "ops": [["hget", [0], [0, 0], 0, 0], ["hget", [0], [0, 0], 1, 0], ["pread", [0], [0, 0], 0, 0], ["set", [5], [7, 1], 0, 0], ["pop", [5], [0, 0], 0, 0]]}]
 
     def run_impl(self, case):
@@ -57,7 +59,19 @@ class C10(Check):
         from ebpfcat.ebpf import EBPF, Structure, Member
         from ebpfcat.hashmap import HashMap, Dict
         from ebpfcat.bpf import ProgType
-        sim = sim_bpf.BpfSim()
+        mask = case.get("mask")
+        ncpu = None
+        if mask:
+            import builtins
+            import io
+            ncpu = sum(int(r.partition("-")[2] or r.partition("-")[0]) - int(r.partition("-")[0]) + 1 for r in mask.split(","))
+
+            def fake_open(path, *a, **kw):
+                if str(path) == "/sys/devices/system/cpu/possible":
+                    return io.StringIO(mask + "\n")
+                return builtins.open(path, *a, **kw)
+            arraymap.open = fake_open
+        sim = sim_bpf.BpfSim(ncpu)
         tags, results = [], []
         saved = arraymap.cpu_count
         arraymap.cpu_count = lambda: case["online"]       # a machine with fewer online than possible CPUs
@@ -142,6 +156,8 @@ class C10(Check):
                         tags += [tag] * new
         finally:
             arraymap.cpu_count = saved
+            if mask:
+                del arraymap.open
         o = {"calls": [list(c) for c in sim.calls], "tags": tags, "overruns": [list(x) for x in sim.overruns], "results": results, "ncpu": sim.ncpu}
         case["_o"] = o
         return o
@@ -175,8 +191,8 @@ class C10(Check):
         return not isinstance(o, Err) and len(o["calls"]) > 0
 
     def rule(self):
-        return ("programs declaring 0-4 hash-map variables (all formats incl. x, with defaults), 0-3 per-CPU array variables on a machine with 1/2/4/16 online "
-                "and 16 possible CPUs, a Dict with 1-3 key and 1-4 value members of all sizes; load() and 3-12 API operations: Dict set / get / in / pop / pop "
+        return ("programs declaring 0-4 hash-map variables (all formats incl. x, with defaults), 0-3 per-CPU array variables on a machine with 1/2/4/16 online CPUs "
+                "whose mask of possible CPUs is this machine's or one of 0, 0-7, 0-3,8-11, 0,2-3, 0,2,4,6, 0-1,4-5,8, 0-2,4 (served for /sys/devices/system/cpu/possible), a Dict with 1-3 key and 1-4 value members of all sizes; load() and 3-12 API operations: Dict set / get / in / pop / pop "
                 "with default / del / iteration, hash variable get / set, per-CPU read and indexing")
 
     def distribution(self, cases, observed):
